@@ -19,7 +19,7 @@ from simkit.rng import seed_globals  # noqa: E402
 from simkit.world import result, run_sim  # noqa: E402
 
 PROPERTY = "C16"
-RUNS = {"quick": 4_000, "thorough": 1_000_000}
+RUNS = {"quick": 8_000, "thorough": 1_000_000}
 WALL = {"quick": 55, "thorough": 1500}
 BATCH = {"quick": 100, "thorough": 1000}
 SELFTEST_RUNS = 30
@@ -266,6 +266,8 @@ def run(sc):
         head = "sttl"
     counters = dict(w.probes)
     counters.update(w.counts)
+    # refutation evidence for the DESIGN hypothesis "evict() returning None lets the cache exceed capacity"
+    counters.setdefault("evict_returned_none_while_full", 0)
     if w.probes.get("probe.put_during_flush"):
         counters["fault.put_while_flush_in_flight"] = 1
     if w.probes.get("probe.read_overlapped_write_same_key"):
